@@ -169,6 +169,9 @@ class Case:
             L.gauge_history(mp, rng, hist=hist)
         elif self.n >= 2 and self.kind == "zeroqn":
             L.gauge_history(mp, rng, hist=hist)
+        if not other and rng.random() < 0.04:
+            mp.scale(3.0e4, inplace=True)     # 'normalised or not': a state of large norm
+            hist.append("scale(3e4)")
         return mp
 
     # -------------------------------------------------------------------------- operators
@@ -684,6 +687,20 @@ class Checker:
                     else:
                         self.fail(f"calc_2site_rdm:{c.form}:value", dict(err_vs_rho=bad_std, err_vs_rho_T=bad_tr, tol=tol))
 
+    def _ent(self, fn, which):
+        """calc_vn_entropy asserts np.allclose(p[p<0], 0) (absolute 1e-8) BEFORE dividing by the trace: rounding-level
+        negative eigenvalues of a rank-deficient RDM of a state with <psi|psi> >~ 1e7 trip it.  Own signature."""
+        c = self.c
+        try:
+            return fn()
+        except AssertionError as e:
+            if c.nrm2 > 1e6:
+                self.fail("calc_entropy:large-norm-state:AssertionError(negativity-check-before-normalisation)",
+                          dict(which=which, norm2=c.nrm2))
+            else:
+                self.fail(f"calc_entropy:{which}:{c.form}:raises:AssertionError", dict(norm2=c.nrm2, error=repr(e)))
+            return None
+
     def entropies(self):
         c = self.c
         n = c.n
@@ -694,13 +711,17 @@ class Checker:
             return
         etol = max(2e-9, 1e3 * L.EPS * kappa * 40)   # |d(p ln p)| <= |dp| (1 + |ln p|), p >= 1e-17
         s1w = {i: entropy_dm(rdm1_dense(c, i)) for i in range(n)}
-        s1 = c.mp.calc_entropy("1site")
+        s1 = self._ent(lambda: c.mp.calc_entropy("1site"), "1site")
+        if s1 is None:
+            return
         self.run.count(f"entropy-1site:{self.cls()}")
         if sorted(s1.keys()) != list(range(n)) or max(abs(s1[i] - s1w[i]) for i in range(n)) > etol:
             self.fail(f"calc_entropy:1site:{c.form}", dict(got={str(k): float(v) for k, v in s1.items()}, want={str(k): v for k, v in s1w.items()}))
         if n >= 2:
             s2w = {(i, j): entropy_dm(rdm2_dense(c, i, j)) for i in range(n) for j in range(i + 1, n)}
-            s2 = c.mp.calc_entropy("2site")
+            s2 = self._ent(lambda: c.mp.calc_entropy("2site"), "2site")
+            if s2 is None:
+                return
             self.run.count(f"entropy-2site:{self.cls()}")
             if sorted(s2.keys()) != sorted(s2w.keys()) or max(abs(s2[k] - s2w[k]) for k in s2w) > etol:
                 self.fail(f"calc_entropy:2site:{c.form}", dict(got={str(k): float(v) for k, v in s2.items()}, want={str(k): v for k, v in s2w.items()}))
@@ -708,7 +729,10 @@ class Checker:
             for (i, j), v in s2w.items():
                 mw[i, j] = mw[j, i] = (s1w[i] + s1w[j] - v) / 2
             for name, fn in (("mutual", lambda: c.mp.calc_entropy("mutual")), ("mutual-direct", c.mp.calc_2site_mutual_entropy)):
-                m = np.asarray(fn())
+                m = self._ent(fn, "mutual")
+                if m is None:
+                    return
+                m = np.asarray(m)
                 self.run.count(f"entropy-{name}:{self.cls()}")
                 if m.shape != mw.shape or np.max(np.abs(m - mw)) > 2 * etol:
                     self.fail(f"calc_entropy:mutual:{c.form}", dict(got=L.ser_val(m), want=L.ser_val(mw)))
